@@ -196,6 +196,10 @@ def compare(ctx, traces):
             continue
         ms, info = model_steps(a)
         real_steps = tr.steps
+        if int(info.get("unsettled", 0)):
+            # the theorems about successive events assume the model's loop is at rest between events
+            ctx.mismatch("host-model-not-quiescent", dict(events=tr.tokens), "ready = [] after every event",
+                         "%s event(s) left tasks on the ready list" % info["unsettled"])
         if tr.merge:
             # both frames of one read are acknowledged before any task runs: within a merged step compare the
             # ACK writes first, then the data writes in order, then the completions
